@@ -261,6 +261,12 @@ def cases(tier):
                 rec = shape_ops(scope, spelling, urikey, kind, mask, "id", "run:42")
                 k = (urikey, "k", spelling)
                 out.append(("%s|%s|id|colon-in-local-part" % (env, kind), prelude + (rec, ("at", k, "q_colon"), ("at", k, "s_a"))))
+        if spelling[0] == "b":
+            # ... and in the default namespace, given as a QualifiedName object with an empty prefix
+            for kind, mask in REP_SHAPES[:3]:
+                rec = shape_ops(scope, Q(""), urikey, kind, mask, "id", "run:42")
+                out.append(("%s|%s|id|colon-in-local-part-of-an-unprefixed-name" % (env, kind),
+                            prelude + (rec, ("at", (urikey, "k", spelling), "s_a"))))
         # (4) quantity
         out.extend(quantity_cases(tier, env, prelude, scope, spelling, urikey))
     return out
